@@ -50,8 +50,9 @@ example : Feeds (chainCtx exLs) [⟨20, "a"⟩] 30 ⟨3, "a"⟩ ⟨8, "a"⟩ :=
     (by simp [PlainChain, names, NameSet.mem]) (by simp) (by simp) rfl
 
 
-/-- **Node level, any number of layers: the decorated graph computes `inv_1(inv_2(... inv_n(t)))`.**  A chain of layers `L1 ... Ln` each with a
-one-argument inverse field of the same name, decorated around `f`: if the LAST layer's backward input computes `t` (what `f` returned under that
+/-- **Node level, any number of layers: the decorated graph computes `inv_1(inv_2(... inv_n(t)))`.**  A chain of layers `L1 ... Ln` each with an
+inverse field of the same name over its backward input and any number of the layer's own parameters (`InvLayer.params`, computing `pts` in the decorated
+graph - by `node_loopback_forward_unchanged` what they computed in the forward pass; `inv_k(s)` then reads `g_k(s, pts_k...)`), decorated around `f`: if the LAST layer's backward input computes `t` (what `f` returned under that
 name: `node_loopback_last_layer_input`), the backward output of the FIRST layer computes the inverses applied one after the other, the last layer's
 first - as ONE term, for chains of every length. -/
 theorem node_chain_inverse_term (b fb r : Bag) (h : b.loopbackWith fb = .ok r) :
@@ -104,24 +105,53 @@ example :
      | .error _ => false) = true := by
   decide +kernel
 
-/-- the term of the theorem for these three layers (last layer first) -/
-example (t : BTerm) (n o : BNode) (i : NameSet) :
-    invTerm [⟨n, o, .function "N.inv.a" [] [], i⟩, ⟨n, o, .function "M.inv.a" [] [], i⟩, ⟨n, o, .function "L.inv.a" [] [], i⟩] t =
-      .node (.function "L.inv.a" [] []) [.node (.function "M.inv.a" [] []) [.node (.function "N.inv.a" [] []) [t]]] := rfl
+/-- the term of the theorem for these three layers (last layer first), the middle one with a private parameter computing `pt` -/
+example (t pt : BTerm) (n o p : BNode) (i : NameSet) :
+    invTerm [{ n := n, o := o, g := .function "N.inv.a" [] [], inh := i },
+             { n := n, o := o, g := .function "M.inv.a" [] [], inh := i, params := [p], pts := [pt] },
+             { n := n, o := o, g := .function "L.inv.a" [] [], inh := i }] t =
+      .node (.function "L.inv.a" [] []) [.node (.function "M.inv.a" [] []) [.node (.function "N.inv.a" [] []) [t], pt]] := rfl
 
-/-- a graph of two inverse edges joined by an identity edge -/
+/-- a graph of two inverse edges joined by an identity edge, the second one also reading the node 0 as a private parameter -/
 def exInvGraph : Bag :=
   { inputs := [⟨0, "a"⟩], outputs := [⟨4, "a"⟩],
     edges := [{ edge := .function "N.inv.a" [] [], ins := [⟨0, "a"⟩], out := ⟨1, "a"⟩ }, identityEdge ⟨1, "a"⟩ ⟨2, "a"⟩,
-              { edge := .function "M.inv.a" [] [], ins := [⟨2, "a"⟩], out := ⟨4, "a"⟩ }],
+              { edge := .function "M.inv.a" [] [], ins := [⟨2, "a"⟩, ⟨0, "a"⟩], out := ⟨4, "a"⟩ }],
     virt := .fin [], persistent := [], optional := [], ctx := .no, next := 5 }
 
 /-- the premise `Wired` is satisfiable (a test) -/
 example :
-    Wired exInvGraph [⟨⟨0, "a"⟩, ⟨1, "a"⟩, .function "N.inv.a" [] [], .fin []⟩, ⟨⟨2, "a"⟩, ⟨4, "a"⟩, .function "M.inv.a" [] [], .fin []⟩] := by
+    Wired exInvGraph [{ n := ⟨0, "a"⟩, o := ⟨1, "a"⟩, g := .function "N.inv.a" [] [], inh := .fin [] },
+                      { n := ⟨2, "a"⟩, o := ⟨4, "a"⟩, g := .function "M.inv.a" [] [], inh := .fin [], params := [⟨0, "a"⟩], pts := [.inp "a"] }] := by
   intro l hl
   simp only [List.mem_cons, List.not_mem_nil, or_false] at hl
-  rcases hl with rfl | rfl <;> simp [InvLayer.edge, exInvGraph, identityEdge]
+  rcases hl with rfl | rfl
+  · simp [InvLayer.edge, exInvGraph, identityEdge]
+  · refine ⟨by simp [InvLayer.edge, exInvGraph, identityEdge], by simp, by simp [exInvGraph], rfl, ?_⟩
+    intro q hq
+    simp only [List.zip_cons_cons, List.zip_nil_right, List.mem_singleton] at hq
+    subst hq
+    exact BDen.input (b := exInvGraph) (n := ⟨0, "a"⟩) (by simp [exInvGraph])
+
+/-- `inv_chain_den` applied (a test): with the link of the identity edge, the graph above computes `M.inv.a(N.inv.a(a), a)` at its output -/
+example : BDen exInvGraph ⟨4, "a"⟩ (.node (.function "M.inv.a" [] []) [.node (.function "N.inv.a" [] []) [.inp "a"], .inp "a"]) := by
+  have hin : BDen exInvGraph ⟨0, "a"⟩ (.inp "a") := BDen.input (b := exInvGraph) (n := ⟨0, "a"⟩) (by simp [exInvGraph])
+  have hw : Wired exInvGraph [{ n := ⟨0, "a"⟩, o := ⟨1, "a"⟩, g := .function "N.inv.a" [] [], inh := .fin [] },
+      { n := ⟨2, "a"⟩, o := ⟨4, "a"⟩, g := .function "M.inv.a" [] [], inh := .fin [], params := [⟨0, "a"⟩], pts := [.inp "a"] }] := by
+    intro l hl
+    simp only [List.mem_cons, List.not_mem_nil, or_false] at hl
+    rcases hl with rfl | rfl
+    · simp [InvLayer.edge, exInvGraph, identityEdge]
+    · refine ⟨by simp [InvLayer.edge, exInvGraph, identityEdge], by simp, by simp [exInvGraph], rfl, ?_⟩
+      intro q hq
+      simp only [List.zip_cons_cons, List.zip_nil_right, List.mem_singleton] at hq
+      subst hq
+      exact hin
+  have hl : Linked exInvGraph [{ n := ⟨0, "a"⟩, o := ⟨1, "a"⟩, g := .function "N.inv.a" [] [], inh := .fin [] },
+      { n := ⟨2, "a"⟩, o := ⟨4, "a"⟩, g := .function "M.inv.a" [] [], inh := .fin [], params := [⟨0, "a"⟩], pts := [.inp "a"] }] := by
+    refine ⟨fun s hs => ?_, trivial⟩
+    exact BDen.ident (identityEdge ⟨1, "a"⟩ ⟨2, "a"⟩) (by simp [exInvGraph]) (by simp [exInvGraph]) rfl rfl rfl hs
+  exact inv_chain_den _ _ _ hw hl hin
 
 /-- **Node level, any number of layers: the LAST layer's backward input computes what `f` returned under its name.**  `node_decorated_layer_input_fresh`
 for a chain of any length under the function's context. -/
